@@ -379,3 +379,226 @@ Proof.
   - change (last (y :: w :: t') "") with (last (w :: t') ""). destruct IH as [I1 I2].
     split; [now right|]. intros z [->|Hz]; auto. apply str_lt_asym; auto.
 Qed.
+
+(* ================= dicts ================= *)
+Section DictLemmas.
+  Context {V : Type}.
+  Implicit Types d : dict V.
+
+  Lemma in_keys d k v : In (k, v) d -> In k (dict_keys d).
+  Proof. intros H. unfold dict_keys. change k with (fst (k, v)). now apply in_map. Qed.
+
+  Lemma keys_in d k : In k (dict_keys d) -> exists v, In (k, v) d.
+  Proof.
+    unfold dict_keys. rewrite in_map_iff. intros [[k' v] [E H]]. cbn in E. subst. eauto.
+  Qed.
+
+  Lemma dict_get_In d k v : NoDup (dict_keys d) -> (dict_get k d = Some v <-> In (k, v) d).
+  Proof.
+    induction d as [|[a b] r IH]; intros N; cbn [dict_get In].
+    - split; [discriminate|tauto].
+    - cbn in N. inversion N as [|? ? Na Nr]; subst. destruct (String.eqb k a) eqn:E.
+      + apply String.eqb_eq in E. subst. split.
+        * intros H. left. congruence.
+        * intros [H|H]; [congruence|]. exfalso. apply Na. eapply in_keys; eauto.
+      + apply String.eqb_neq in E. rewrite (IH Nr). split; auto.
+        intros [H|H]; auto. congruence.
+  Qed.
+
+  Lemma dict_get_None d k : dict_get k d = None <-> ~ In k (dict_keys d).
+  Proof.
+    induction d as [|[a b] r IH]; cbn [dict_get dict_keys map In fst].
+    - tauto.
+    - destruct (String.eqb k a) eqn:E.
+      + apply String.eqb_eq in E. subst. split; [discriminate|]. intros H. exfalso. auto.
+      + apply String.eqb_neq in E. rewrite IH. unfold dict_keys. intuition.
+  Qed.
+
+  Lemma dict_get_Some_In d k v : dict_get k d = Some v -> In (k, v) d.
+  Proof.
+    induction d as [|[a b] r IH]; cbn [dict_get In]; [discriminate|].
+    destruct (String.eqb k a) eqn:E.
+    - apply String.eqb_eq in E. subst. intros H. left. congruence.
+    - auto.
+  Qed.
+
+  Lemma dict_set_keys d k v k' : In k' (dict_keys (dict_set k v d)) <-> k' = k \/ In k' (dict_keys d).
+  Proof.
+    induction d as [|[a b] r IH]; cbn [dict_set dict_keys map In fst].
+    - intuition.
+    - destruct (String.eqb k a) eqn:E; cbn [dict_keys map In fst].
+      + apply String.eqb_eq in E. subst. intuition.
+      + unfold dict_keys in IH. rewrite IH. intuition.
+  Qed.
+
+  Lemma dict_set_NoDup d k v : NoDup (dict_keys d) -> NoDup (dict_keys (dict_set k v d)).
+  Proof.
+    induction d as [|[a b] r IH]; cbn [dict_set dict_keys map fst]; intros N.
+    - constructor; [intros []|constructor].
+    - inversion N as [|? ? Na Nr]; subst. destruct (String.eqb k a) eqn:E; cbn [dict_keys map fst].
+      + constructor; auto.
+      + apply String.eqb_neq in E. constructor; [|now apply IH].
+        intros H. apply (dict_set_keys r k v a) in H as [H|H]; auto.
+  Qed.
+
+  Lemma dict_set_In d k v k' v' : NoDup (dict_keys d) ->
+    (In (k', v') (dict_set k v d) <-> (k' = k /\ v' = v) \/ (k' <> k /\ In (k', v') d)).
+  Proof.
+    induction d as [|[a b] r IH]; cbn [dict_set dict_keys map fst]; intros N.
+    - cbn. split.
+      + intros [H|[]]. inversion H. auto.
+      + intros [[-> ->]|[_ []]]. auto.
+    - inversion N as [|? ? Na Nr]; subst. destruct (String.eqb k a) eqn:E.
+      + apply String.eqb_eq in E. subst a. cbn [In]. split.
+        * intros [H|H]; [inversion H; auto|]. right. split; auto.
+          intros ->. apply Na. eapply in_keys; eauto.
+        * intros [[-> ->]|[H1 [H2|H2]]]; auto. inversion H2. congruence.
+      + apply String.eqb_neq in E. cbn [In]. rewrite (IH Nr). split.
+        * intros [H|[H|H]]; auto. inversion H; subst. right. split; auto.
+          right. destruct H; auto.
+        * intros [H|[H1 [H2|H2]]]; auto.
+  Qed.
+
+  Lemma filter_keys_NoDup (f : string * V -> bool) d : NoDup (dict_keys d) -> NoDup (dict_keys (filter f d)).
+  Proof.
+    induction d as [|[a b] r IH]; cbn [filter dict_keys map fst]; intros N; [constructor|].
+    inversion N as [|? ? Na Nr]; subst. destruct (f (a, b)); auto.
+    cbn [dict_keys map fst]. constructor; auto.
+    intros H. apply keys_in in H as [v H]. apply filter_In in H as [H _]. apply Na. eapply in_keys; eauto.
+  Qed.
+
+  Lemma dict_del_filter d k : NoDup (dict_keys d) ->
+    dict_del k d = filter (fun e => negb (String.eqb (fst e) k)) d.
+  Proof.
+    induction d as [|[a b] r IH]; cbn [dict_del filter dict_keys map fst]; intros N; auto.
+    inversion N as [|? ? Na Nr]; subst. rewrite (String.eqb_sym a k).
+    destruct (String.eqb k a) eqn:E; cbn [negb].
+    - apply String.eqb_eq in E. subst. symmetry. apply filter_id.
+      intros [k' v'] H. cbn [fst]. destruct (String.eqb k' a) eqn:E2; auto.
+      apply String.eqb_eq in E2. subst. exfalso. apply Na. eapply in_keys; eauto.
+    - now rewrite IH.
+  Qed.
+End DictLemmas.
+
+Lemma filter_filter {A} (f g : A -> bool) l : filter f (filter g l) = filter (fun x => g x && f x) l.
+Proof.
+  induction l as [|x l IH]; cbn [filter]; auto.
+  destruct (g x); cbn [filter andb]; [destruct (f x)|]; now rewrite IH.
+Qed.
+
+Lemma fold_dict_del {V} (ts : list string) : forall (d : dict V), NoDup (dict_keys d) ->
+  fold_left (fun ls n => dict_del n ls) ts d = filter (fun e => negb (memb (fst e) ts)) d.
+Proof.
+  induction ts as [|n ts IH]; intros d N; cbn [fold_left].
+  - symmetry. now apply filter_id.
+  - rewrite (dict_del_filter _ _ N), IH by now apply filter_keys_NoDup.
+    rewrite filter_filter. apply filter_ext. intros [k v]. cbn [fst memb existsb].
+    now rewrite negb_orb.
+Qed.
+
+Lemma fold_sl_remove (ts : list string) : forall l, sorted l ->
+  fold_left sl_remove ts l = filter (fun y => negb (memb y ts)) l.
+Proof.
+  induction ts as [|n ts IH]; intros l S; cbn [fold_left].
+  - symmetry. now apply filter_id.
+  - rewrite sl_remove_del, (del_filter _ _ S), IH by now apply filter_sorted.
+    rewrite filter_filter. apply filter_ext. intros y. cbn [memb existsb].
+    now rewrite negb_orb.
+Qed.
+
+(* ================= membership tables ================= *)
+Definition td_wf (td : dict (list string)) : Prop :=
+  NoDup (dict_keys td) /\ forall g l, In (g, l) td -> sorted l /\ l <> [].
+
+Lemma rm_In n td g l' :
+  In (g, l') (remove_memberships n td) <-> exists l, In (g, l) td /\ l' = del n l /\ l' <> [].
+Proof.
+  unfold remove_memberships. rewrite filter_In, in_map_iff. cbn [snd]. split.
+  - intros [[[g0 l0] [E H]] NE]. cbn [fst snd] in E. inversion E; subst.
+    exists l0. rewrite <- sl_remove_del. repeat split; auto.
+    intros Z. rewrite Z in NE. discriminate.
+  - intros [l [H [-> NE]]]. split.
+    + exists (g, l). cbn [fst snd]. now rewrite sl_remove_del.
+    + destruct (del n l); [contradiction|reflexivity].
+Qed.
+
+Lemma rm_keys_NoDup n td : NoDup (dict_keys td) -> NoDup (dict_keys (remove_memberships n td)).
+Proof.
+  intros N. unfold remove_memberships. apply filter_keys_NoDup.
+  unfold dict_keys. rewrite map_map. cbn [fst]. exact N.
+Qed.
+
+Lemma rm_wf n td : td_wf td -> td_wf (remove_memberships n td).
+Proof.
+  intros [N W]. split; [now apply rm_keys_NoDup|].
+  intros g l' H. apply rm_In in H as [l [H [-> NE]]]. split; auto.
+  apply del_sorted. now apply (W g l).
+Qed.
+
+Lemma rm_listed n td g m : td_wf td ->
+  (listed (remove_memberships n td) g m <-> listed td g m /\ m <> n).
+Proof.
+  intros [N W]. unfold listed. split.
+  - intros [l' [H Hm]]. apply rm_In in H as [l [H [-> NE]]].
+    apply del_In in Hm as [Hm Hne]; [|now apply (W g l)]. eauto.
+  - intros [[l [H Hm]] Hne]. exists (del n l).
+    assert (In m (del n l)) by (apply del_In; [now apply (W g l)|auto]).
+    split; auto. apply rm_In. exists l. repeat split; auto.
+    intros Z. rewrite Z in *. contradiction.
+Qed.
+
+Lemma td_wf_unique (td : dict (list string)) g l1 l2 : NoDup (dict_keys td) -> In (g, l1) td -> In (g, l2) td -> l1 = l2.
+Proof.
+  intros N H1 H2. apply (dict_get_In td g l1 N) in H1. apply (dict_get_In td g l2 N) in H2. congruence.
+Qed.
+
+Lemma upd_wf n g td : td_wf td -> td_wf (update_memberships n g td).
+Proof.
+  intros W. apply (rm_wf n) in W. unfold update_memberships.
+  set (td' := remove_memberships n td) in *. destruct W as [N W].
+  destruct (dict_get g td') as [l|] eqn:G; (split; [now apply dict_set_NoDup|]);
+    intros g' l' H; apply (dict_set_In _ _ _ _ _ N) in H as [[-> ->]|[_ H]]; eauto.
+  - apply dict_get_Some_In in G. rewrite sl_add_ins. split.
+    + apply ins_sorted. now apply (W g l).
+    + intros Z. assert (In n (ins n l)) by (apply ins_In; auto). rewrite Z in *. contradiction.
+  - unfold sl_of_str. split; [apply sorted_single|discriminate].
+Qed.
+
+Lemma upd_listed n g td g' m : td_wf td ->
+  (listed (update_memberships n g td) g' m <-> (g' = g /\ m = n) \/ (listed td g' m /\ m <> n)).
+Proof.
+  intros W. rewrite <- (rm_listed n td g' m W). apply (rm_wf n) in W. unfold update_memberships.
+  set (td' := remove_memberships n td) in *. destruct W as [N W]. unfold listed.
+  destruct (dict_get g td') as [l|] eqn:G.
+  - pose proof (dict_get_Some_In _ _ _ G) as GI. split.
+    + intros [l' [H Hm]]. apply (dict_set_In _ _ _ _ _ N) in H as [[-> ->]|[Hne H]].
+      * rewrite sl_add_ins in Hm. apply ins_In in Hm as [->|Hm]; eauto.
+      * eauto.
+    + intros [[-> ->]|[l' [H Hm]]].
+      * exists (sl_add l n). split; [apply dict_set_In; auto|]. rewrite sl_add_ins. apply ins_In. auto.
+      * destruct (String.eqb g' g) eqn:E.
+        -- apply String.eqb_eq in E. subst g'. pose proof (td_wf_unique _ _ _ _ N H GI). subst l'.
+           exists (sl_add l n). split; [apply dict_set_In; auto|]. rewrite sl_add_ins. apply ins_In. auto.
+        -- apply String.eqb_neq in E. exists l'. split; auto. apply dict_set_In; auto.
+  - apply dict_get_None in G. split.
+    + intros [l' [H Hm]]. apply (dict_set_In _ _ _ _ _ N) in H as [[-> ->]|[Hne H]].
+      * destruct Hm as [<-|[]]. auto.
+      * eauto.
+    + intros [[-> ->]|[l' [H Hm]]].
+      * exists (sl_of_str n). split; [apply dict_set_In; auto|]. now left.
+      * exists l'. split; auto. apply dict_set_In; auto. right. split; auto.
+        intros ->. apply G. eapply in_keys; eauto.
+Qed.
+
+Lemma fold_rm_wf ts : forall td, td_wf td -> td_wf (fold_left (fun td n => remove_memberships n td) ts td).
+Proof.
+  induction ts as [|n ts IH]; intros td W; cbn [fold_left]; auto. apply IH. now apply rm_wf.
+Qed.
+
+Lemma fold_rm_listed ts : forall td g m, td_wf td ->
+  (listed (fold_left (fun td n => remove_memberships n td) ts td) g m <-> listed td g m /\ ~ In m ts).
+Proof.
+  induction ts as [|n ts IH]; intros td g m W; cbn [fold_left].
+  - cbn. tauto.
+  - rewrite IH by now apply rm_wf. rewrite (rm_listed _ _ _ _ W). cbn [In]. intuition.
+Qed.
